@@ -160,7 +160,7 @@ func (c *ConnectorAPIv1) UpdateConnector(
 	req *apiv1.UpdateConnectorRequest,
 ) (*apiv1.UpdateConnectorResponse, error) {
 	if req.Id == "" {
-		return nil, cerrors.ErrEmptyID
+		return nil, status.ConnectorError(cerrors.ErrEmptyID)
 	}
 
 	updated, err := c.connectorOrchestrator.Update(ctx, req.Id, req.Plugin, fromproto.ConnectorConfig(req.Config))
